@@ -119,6 +119,8 @@ pub struct LockOutcome {
     pub await_breaks_fired: u64,
     /// host calls that start or continue evaluation (RUN, CONT, tick)
     pub eval_calls: u64,
+    /// for every Print record the session emitted: the number of evaluating calls made so far
+    pub print_marks: Vec<u64>,
 }
 
 /// Enter the program into a fresh session in the case's order.
@@ -180,6 +182,7 @@ pub fn run_lockstep(c: &ProgCase, cmp: Compare, ctx: &mut Ctx) -> Result<LockOut
         sess: Sess::new(),
         await_breaks_fired: 0,
         eval_calls: 0,
+        print_marks: vec![],
     };
     let mut stop_cmds = c.stop_cmds.iter();
     let mut breaks: Vec<u32> = c.breaks.clone();
@@ -242,6 +245,11 @@ pub fn run_lockstep(c: &ProgCase, cmp: Compare, ctx: &mut Ctx) -> Result<LockOut
             ctx.calls(1);
             if matches!(&op, Op::Tick) || matches!(&op, Op::Line(t) if t == "RUN" || t == "CONT") {
                 out.eval_calls += 1;
+            }
+            for r in &call.recs {
+                if matches!(r, Rec::Print(_)) {
+                    out.print_marks.push(out.eval_calls);
+                }
             }
             real_recs.extend(call.recs.iter().cloned());
             match &call.res {
